@@ -9,7 +9,7 @@ class Prop(PropBase):
     id = 'C19'
     coq_imports = ['PV.Model.Loader']
     props_file = 'theories/Props/C19.v'
-    n_cases = {'quick': 4000, 'thorough': 9000}
+    n_cases = {'quick': 4000, 'thorough': 6000}
     parallel = True      # each worker spawns its own subprocess with its own cwd and temp tree
     rule = ('cases = real temporary directory trees: exhaustive grid of {plain, dir/name, absolute, '
             'real built-in name} x every subset of {caller dir, explicit-parent dir, cwd, '
